@@ -153,6 +153,9 @@ def check(ctx: Ctx) -> None:
     double_precision(ctx, F)
     hedge_common.replay_hedger(ctx, focus="C01")
 
+    from checks import suite_oracles
+    suite_oracles.suite(ctx, "pl")        # every pl() call of the repository's own tests against the exact wealth identity
+
     ctx.rule = ("every terminal state of the PnL account machine (all spot/unit/cost/payoff/flag combinations of the "
                 "bounded lattices) emitted by TLC and replayed into pl()/terminal_value() in float64/float32 under 4 "
                 "power-of-two rescalings; plus Hedge.tla records replayed into a real Hedger; a case is distinct when "
